@@ -662,14 +662,16 @@ impl<C: Col> Wrap<C> for WPlain {
     fn split(v: &C) -> (Vec<C::P>, Option<C::P>) { (v.comps(), None) }
     fn de_hold<'de, D: Deserializer<'de>>(_d: D) -> Option<Result<C, D::Error>> { None }
 }
-impl<C: Col> Wrap<C> for WAlpha {
+impl<C: Col> Wrap<C> for WAlpha where Alpha<C, C::P>: Serialize + DeserializeOwned {
     const NAME: &'static str = "alpha";
     type V = Alpha<C, C::P>;
     fn build(c: C, a: C::P) -> Self::V { Alpha { color: c, alpha: a } }
     fn split(v: &Self::V) -> (Vec<C::P>, Option<C::P>) { (v.color.comps(), Some(v.alpha)) }
     fn de_hold<'de, D: Deserializer<'de>>(d: D) -> Option<Result<Self::V, D::Error>> { Some(<C::P as Prim>::de_hold_alpha::<C, D>(d)) }
 }
-impl<C: Col + Premultiply<Scalar = <C as Col>::P>> Wrap<C> for WPre {
+// the bound is stated on the wrapped type itself, not on its ingredients: whatever palette's impls ask of the scalar is
+// then checked against the concrete types of every instantiation, and a rephrased where-clause still compiles
+impl<C: Col + Premultiply<Scalar = <C as Col>::P>> Wrap<C> for WPre where PreAlpha<C>: Serialize + DeserializeOwned {
     const NAME: &'static str = "prealpha";
     type V = PreAlpha<C>;
     fn build(c: C, a: C::P) -> Self::V { PreAlpha { color: c, alpha: a } }
